@@ -118,6 +118,11 @@ def run(chk):
     # ---- consequence at the frame decoder: 1/2-bit header errors and body bursts are rejected
     bad = frame_reject_check(chk, rng, 40 if thorough else 6)
     chk.oblige("monitor:decoder-rejects-header-errors-and-bursts", bad is None, "" if bad is None else repr(bad)[:300])
+    rbad = rx_reject_check(chk, rng, thorough)
+    chk.oblige("monitor:receive-path-rejects-header-errors-and-body-bursts(all frame kinds)", rbad is None, "" if rbad is None else repr(rbad)[:300])
+    if rbad is not None:
+        chk.violation("corrupted frame accepted by the receive path (handed up or acknowledged): %r" % (rbad,), rbad,
+                      key="rxreject:%s:%s" % (rbad.get("kind"), rbad.get("frame_kind")))
     if bad is not None:
         chk.violation("corrupted frame accepted by Frame.deserialize: %r" % (bad,), bad, key="reject:%s" % bad.get("kind"))
 
@@ -184,6 +189,56 @@ def frame_reject_check(chk, rng, nframes):
                 return {"kind": "burst", "frame": good.hex(), "w": w, "o": o}
             except InvalidFrame:
                 pass
+    return None
+
+
+def rx_reject_check(chk, rng, thorough):
+    """The same consequence on the real receive path (uart.data_received), for every kind of data frame: unfragmented,
+    first, middle and last fragments, including continuation fragments with an empty or tiny body; frames are built with
+    bit-by-bit reference checksums.  A corrupted frame must be neither handed up nor acknowledged."""
+    from impl_link import run_rx, build_frame_bytes
+    kinds = [("unfragmented", 0xC0, True), ("first", 0x40, True), ("middle", 0x00, False), ("last", 0x80, False)]
+    for name, fl0, has_hdr in kinds:
+        lens = [0, 1, 2, 17] if not has_hdr else [0, 1, 23]
+        for ln in lens:
+            flags = fl0 | (rng.randrange(4) << 2)
+            data = bytes(rng.randrange(256) for _ in range(ln))
+            good = build_frame_bytes(rng.randrange(1, 1 << 32) if has_hdr else None, data, flags)
+            out, _ = run_rx([good])
+            if "D:" not in out:
+                return {"kind": "selfcheck", "frame_kind": name, "frame": good.hex(), "out": out}
+            # 1- and 2-bit errors over the checksummed header bytes and the header checksum
+            for i in range(40):
+                for j in range(i, 40):
+                    bad = bytearray(good)
+                    for bit in {i, j}:
+                        bad[2 + bit // 8] ^= 1 << (bit % 8)
+                    chk.evaluations += 1
+                    out, _ = run_rx([bytes(bad)])
+                    if "D:" in out or "W:" in out:
+                        return {"kind": "header", "frame_kind": name, "frame": good.hex(), "bits": [i, j], "out": out[:120]}
+            # error bursts of up to 16 bits over the body (body checksum + the bytes it covers)
+            region = len(good) - 7
+            nbits = region * 8
+            pats = []
+            if nbits <= 16:
+                pats = [(w, 0) for w in (range(1, 1 << nbits) if thorough else
+                                         list(range(1, 300)) + [rng.randrange(1, 1 << nbits) for _ in range(1500)])]
+            else:
+                for o in range(0, nbits - 15):
+                    pats += [(1, o), (3, o), (0x8001, o), (0xFFFF, o)]
+                pats += [(rng.randrange(1, 65536) | 1, rng.randrange(0, nbits - 15)) for _ in range(600 if thorough else 150)]
+            for w, o in pats:
+                e = w << o
+                if e >> nbits:
+                    continue
+                bad = bytearray(good)
+                for k in range(region):
+                    bad[7 + k] ^= (e >> (8 * k)) & 0xFF
+                chk.evaluations += 1
+                out, _ = run_rx([bytes(bad)])
+                if "D:" in out or "W:" in out:
+                    return {"kind": "burst", "frame_kind": name, "data_len": ln, "frame": good.hex(), "w": w, "o": o, "out": out[:120]}
     return None
 
 
